@@ -9,7 +9,10 @@
    methods with self, externblob fields, parameters, locals, globals, function names, case bindings, externals,
    namespaces, variants, blob / enum names), string contents x site, numeric literals x site, every expression form as
    an unused statement x position (thorough: also every ordered pair of forms inside an unused tuple), program shapes x
-   sizes around Lua's static limits, control transfers (break / continue / ret / <!>) x where they are written.  MC_LoadCases checks the universe (ids and texts unique, every cell inhabited, the spelling really occurs
+   sizes around Lua's static limits, control transfers (break / continue / ret / <!>) x where they are written, transfer x
+   function flavour (fn, pu, method, immediately invoked, argument, nested, pure in pure) x enclosing construct, and dead
+   code (a transfer that is not last in its block x every kind of following statement x block position x kind of
+   function body; quick: the star of that product, thorough: all of it).  MC_LoadCases checks the universe (ids and texts unique, every cell inhabited, the spelling really occurs
    in the text, sizes straddle the limits) and emits every case.
 3. The recorder (harness c06) substitutes the placeholders, compiles each project through the public API, hands every
    emitted chunk to minilua's loader and writes one event list per case.  TLC (Trace_Load) re-derives every case from
@@ -21,6 +24,7 @@
 5. Negative controls: a recorder that corrupts the emitted chunk before loading (two ways), a record whose load event
    was dropped, a record whose source text was altered, an incomplete trace - all must be rejected.
 """
+import concurrent.futures
 import json
 import os
 import random
@@ -262,6 +266,10 @@ def run(ctx):
         ev.write()
         return rc
 
+    # the C01 universe is enumerated in the background while the lexical universe is recorded and validated
+    gen_pool = concurrent.futures.ThreadPoolExecutor(max_workers=1)
+    gen_future = gen_pool.submit(vlib.tlc, "MC_LoadGen", wd=wd, workers=TLC_WORKERS, timeout=1500, coverage=False, xmx="8g")
+
     # 1. the protocol on its own
     p = vlib.tlc("MC_Load", wd=wd, workers=TLC_WORKERS, timeout=600)
     vlib.require_tlc_ok(p, "SyltLoad protocol (MC_Load)")
@@ -279,7 +287,7 @@ def run(ctx):
     for (_, c) in e.records:
         byidx.setdefault(c["idx"], c)
     cases = [byidx[i] for i in sorted(byidx)]
-    if [c["idx"] for c in cases] != list(range(1, len(cases) + 1)) or len(cases) < 1500 or e.coverage.get("Emit", (0, 0))[1] < len(cases):
+    if [c["idx"] for c in cases] != list(range(1, len(cases) + 1)) or len(cases) < 4000 or e.coverage.get("Emit", (0, 0))[1] < len(cases):
         vlib.tool_error("vacuity: %d cases emitted (indices not 1..N, or fewer than 1500), Emit fired %s times" % (len(cases), e.coverage.get("Emit")))
 
     # 3. conformance of the lexical universe: record, then TLC re-derives every case and validates every run
@@ -302,7 +310,8 @@ def run(ctx):
     if corpus_cnt.get("ok", 0) + corpus_cnt.get("loaderr", 0) < 150:
         vlib.tool_error("vacuity: only %d corpus programs are accepted" % (corpus_cnt.get("ok", 0) + corpus_cnt.get("loaderr", 0)))
 
-    g = vlib.tlc("MC_LoadGen", wd=wd, workers=TLC_WORKERS, timeout=1500, coverage=False, xmx="8g")
+    g = gen_future.result()
+    gen_pool.shutdown()
     vlib.require_tlc_ok(g, "MC_LoadGen (emission of the C01 universe)")
     seen = {}
     for (_, c) in g.records:
@@ -350,7 +359,7 @@ def run(ctx):
            spec_assumptions_checked=SPEC_ASSUMES, negative_controls_rejected=nneg,
            exhaustive=(tier != "quick"), known_findings_hit=verdicts.known_hits,
            rule="every case of SyltCorners!Cases (spelling x site, string content x site, numeric literal x site, unused expression "
-                "form x position, shape x size, control transfer x placement; thorough: + pairs of forms in an unused tuple), every file under /repo/tests, and the programs of the C01 "
+                "form x position, shape x size, control transfer x placement, transfer x function flavour x construct, dead code after a transfer; thorough: + the full dead-code product and pairs of forms in an unused tuple), every file under /repo/tests, and the programs of the C01 "
                 "universe (all in thorough, a seeded sample of 2000 in quick); one evaluation = compile through the public API + "
                 "minilua load of the emitted chunk + TLC validation of the event list; a program is non-trivial when the compiler "
                 "accepted it, i.e. its chunk really went to the loader; distinct by source text (lexical cases, TLC: TextsUnique), "
